@@ -524,7 +524,8 @@ def unified_options(rng, allow_raw_headers=True):
 # ---------------------------------------------------------------- option sets (any mode, hostile)
 
 LN_FORMATS = ['{nm:^4}⋮', '{np:^4}│', '{nm}', '{np:>1}', '[{nm:<6}]', '{nm:^4}{np:^4}{nm}{np}{nm:>9}', '', 'x',
-              '{nm:^40}|', '{np:>3}┊', '{nm:~^5}']
+              '{nm:^40}|', '{np:>3}┊', '{nm:~^5}', '{nm:^65535}', '{np:>65536}', '{nm:<100000}', '{np:^4294967296}',
+              '{nm:^18446744073709551615}', '{nm:^18446744073709551616}', '{nm:>3.0}', '{np:^4.100000}']
 WORD_REGEXES = [r'\w+', '.', r'\S+', '[a-z]+', r'\s+', '.*', r'[^ ]', r'\b', 'a|b', '(x)?']
 STYLE_STRINGS = ['red', 'bold', 'normal', 'syntax', 'raw', 'omit', 'auto', 'blue ul', 'syntax bold "#102030"',
                  'reverse', 'italic dim strike', '255 0', 'hidden', 'blink', 'brightred brightblue', 'normal auto',
@@ -625,8 +626,12 @@ def hostile_options(rng):
         cls.append('decor')
     if rng.random() < 0.08:
         o['--blame-format'] = rng.choice(['{commit}', '{timestamp:<15} {author:<15.14} {commit:<8}', '{author:>3.1}',
-                                          '{commit:^1}{commit}{author}', ''])
-        o['--blame-separator-format'] = rng.choice(['│{n:^4}│', 'none', '{n:^4_block}', '{n:>2_every-3}', '{n}', ''])
+                                          '{commit:^1}{commit}{author}', '', '{author:<65536}', '{commit:>100000.70000}',
+                                          '{timestamp:^65535}', '{author:.0}', '{author:<18446744073709551615}'])
+        o['--blame-separator-format'] = rng.choice(['│{n:^4}│', 'none', '{n:^4_block}', '{n:>2_every-3}', '{n}', '',
+                                                    '{n:^4_every-0}', '{n:_every-1}', '{n:<3_every-2}', '{n:_every}',
+                                                    '{n:^4_every-18446744073709551615}', '{n:^4_every-99999999999999999999}',
+                                                    '{n:^4_every--1}', '{n:0_block}', '{n:^100000}'])
         cls.append('blamefmt')
     if rng.random() < 0.08:
         o['--blame-timestamp-output-format'] = rng.choice(['%Y-%m-%d', '%s', '%H:%M %z', ''])
